@@ -29,6 +29,10 @@ type Ledger struct {
 	Note  string                       `json:"note"`
 	Props map[string]map[string]int    `json:"props"` // property -> stable obligation name -> count at pin
 	Funcs map[string][]string          `json:"funcs"` // property -> functions under contract
+	// property -> function -> number of return sites that no feasible path reaches at the pin
+	// (dead error paths); more of them on a later tree means the contract's assumptions or the
+	// callee contracts have become contradictory on those paths (vacuity)
+	Infeasible map[string]map[string]int `json:"infeasible_return_sites"`
 }
 
 var posSuffix = regexp.MustCompile(`@[A-Za-z0-9_./\-]+\.go:\d+`)
@@ -288,6 +292,25 @@ func cmdCheck(args []string) {
 			violate(n, p, false, "obligation recorded at the pin is no longer generated")
 		}
 	}
+	infeasible := map[string]int{}
+	for _, s := range e.InfeasibleSites {
+		if i := strings.Index(s, "/cover/"); i > 0 {
+			infeasible[s[:i]]++
+		}
+	}
+	if li := ledger.Infeasible[*prop]; li != nil && !*writeLedger {
+		var fns []string
+		for fn := range infeasible {
+			fns = append(fns, fn)
+		}
+		sort.Strings(fns)
+		for _, fn := range fns {
+			if infeasible[fn] > li[fn] {
+				p := writeReplay("vacuity-"+fn, map[string]interface{}{"property": *prop, "obligation": fn + "/cover/return-sites", "error": fmt.Sprintf("%d return sites of %s are unreachable under the contract's assumptions (at the pin: %d); obligations on those paths hold vacuously", infeasible[fn], fn, li[fn]), "sites": e.InfeasibleSites})
+				violate(fn+"/cover/return-sites", p, false, "return sites became unreachable under the contracts (vacuity)")
+			}
+		}
+	}
 	if len(obs) == 0 && len(e.Errors) == 0 {
 		fmt.Fprintf(os.Stderr, "check: no obligations for property %s (vacuous)\n", *prop)
 		os.Exit(2)
@@ -300,6 +323,10 @@ func cmdCheck(args []string) {
 		ledger.Note = "obligation names (positions stripped) generated on the pinned tree, per property; written by `gvc check --write-ledger`"
 		ledger.Props[*prop] = present
 		ledger.Funcs[*prop] = fnames
+		if ledger.Infeasible == nil {
+			ledger.Infeasible = map[string]map[string]int{}
+		}
+		ledger.Infeasible[*prop] = infeasible
 		b, _ := json.MarshalIndent(ledger, "", " ")
 		_ = os.WriteFile(filepath.Join(*verif, "ledger.json"), b, 0o644)
 	}
